@@ -7,6 +7,7 @@ import OfxProofs.Lemmas.Ofxget
 import OfxProofs.Lemmas.OfxgetFiles
 import OfxProofs.Lemmas.OfxgetWrite
 import OfxProofs.Lemmas.OfxgetValues
+import OfxProofs.Lemmas.OfxgetPersist
 import OfxProofs.Gen.Ofxget
 
 namespace Ofx.Ofxget
@@ -208,12 +209,22 @@ theorem C18_persist_default_fixed :
       [] [("srv1".toList, [("version".toList, "102".toList)])] "U".toList "version".toList = true := by
   decide +kernel
 
-/-- witness (iii'): the same value held in the DEFAULT section of ofxget.cfg is not cleared -/
-theorem C18_persist_default_section_false :
+/-- repaired (`fix: ofxget --write states a default value explicitly when ofxget.cfg already holds the option`):
+    the same default value against an entry in the DEFAULT section of ofxget.cfg now persists -/
+theorem C18_persist_default_section_fixed :
     persistHolds Generated.ofxgetTables (fun _ => none)
       (nsWrite [("url".toList, .str "https://h/".toList), ("version".toList, .int 203)])
       [] [("DEFAULT".toList, [("clientuid".toList, "G".toList), ("version".toList, "102".toList)]),
-          ("srv1".toList, [("user".toList, "bob".toList)])] "U".toList "version".toList = false := by
+          ("srv1".toList, [("user".toList, "bob".toList)])] "U".toList "version".toList = true := by
+  decide +kernel
+
+/-- repaired (same commit): a server-section entry equal to the library default that shadows a DEFAULT-section entry
+    survives a `--write` that does not mention the option -/
+theorem C18_persist_section_default_kept_fixed :
+    persistHolds Generated.ofxgetTables (fun _ => none)
+      (nsWrite [("url".toList, .str "https://h/".toList)])
+      [] [("DEFAULT".toList, [("clientuid".toList, "G".toList), ("unclosedelements".toList, "yes".toList)]),
+          ("srv1".toList, [("unclosedelements".toList, "0".toList)])] "U".toList "unclosedelements".toList = true := by
   decide +kernel
 
 /-- witness (iv): an empty command-line value overrides for this run but is never saved -/
@@ -252,10 +263,78 @@ example : strip "https://ofx.example.com/cgi?x=%41&y=2".toList = "https://ofx.ex
 theorem C18_persist_partial_int (T : Tables) (i : Int) : readsBack T .int (.int i) = true := by
   simp [readsBack, arg2config, pyStr, typedOfStr, pyInt_roundtrip]
 
+/-- **C18_persist_partial** (value level, list options): a non-empty list of clean account numbers — printable
+    characters other than `,` `'` `\`, no blank at either end, not empty — reads back as itself -/
+theorem C18_persist_partial_list (T : Tables) (l : List Str) (hne : l ≠ []) (h : ∀ m ∈ l, CleanMember m) :
+    readsBack T .list (.list l) = true := by
+  simp [readsBack, arg2config, pyStr, typedOfStr, list_roundtrip l hne h]
+
+example : CleanMember "12-3456 [x]".toList where
+  chars := by decide
+  nonempty := by decide
+  head := by intro c rest h; cases h; decide
+  last := by
+    intro c pre h
+    have : ("12-3456 [x]".toList).getLast? = some c := by rw [h]; simp
+    have h2 : ("12-3456 [x]".toList).getLast? = some ']' := by decide
+    rw [h2] at this
+    cases this
+    decide
+
 /-- **C18_persist_partial** (value level, boolean options): always -/
 theorem C18_persist_partial_bool (b : Bool) :
     readsBack Generated.ofxgetTables .bool (.bool b) = true := by
   cases b <;> decide +kernel
+
+/-- **C18_persist_partial** (whole run).  Save, then run again without the option: for every CONFIGURABLE option
+    `k` whose value in effect `v` at the saving run (a) is not empty, not the global CLIENTUID and not equal to the
+    library default (`WillWrite`: the three tests of `test_cfg_val`) and (b) reads back at value level
+    (`typed(strip(arg2config v)) = v`), the next run `ofxget … s --dryrun` that does not give `k` on the command
+    line has exactly `v` in effect — for every prior content of ofxget.cfg, every FI database, every OFX Home table,
+    every other option.  (`WillWrite` failing is where the remaining known findings live: empty CLI values,
+    `--clientuid` equal to the global one.) -/
+theorem C18_persist_partial (T : Tables) (hwf : T.WF = true) (hnd : (T.configurable.map (·.1)).Nodup)
+    (lookup : Str → Option OhRec) (fidb user : FileC) (c1 : Chain) (uuid : Str) (cfg' : Ini) (s : Str)
+    (hs : s ≠ defaultSect) (hnick : serverNick c1 = .ok s)
+    (hmk : mkServerCfg T c1 (loadUser fidb user) (loadLib fidb) user uuid = .ok cfg')
+    (k : Name) (ty : CfgTy) (hkt : (k, ty) ∈ T.configurable) (v : CfgVal) (hv : effective c1 k = some v)
+    (libCfg : Map) (hlib : readConfig T (loadLib fidb) s = .ok libCfg)
+    (hw : WillWrite T (reloadCfg (loadUser fidb user) user uuid).defaults libCfg k v)
+    (hrb : readsBack T ty v = true)
+    (ns2 : Map) (c2 : Chain) (d : CfgVal)
+    (hsrv2 : (extractns ns2).lookup "server".toList = some (.str s))
+    (hdry2 : (extractns ns2).lookup "dryrun".toList = some d) (htd : truthy d = true)
+    (hk2 : (extractns ns2).lookup k = none)
+    (h2 : mergeConfig T lookup ns2 (loadUser fidb cfg'.toFile) = .ok c2) :
+    effective c2 k = effective c1 k := by
+  rw [hv]
+  refine saved_value_in_effect T hwf hnd lookup fidb user c1 uuid cfg' s hs hnick hmk k ty hkt v hv libCfg hlib hw ?_
+    ns2 c2 d hsrv2 hdry2 htd hk2 h2
+  intro txt htxt
+  unfold readsBack at hrb
+  rw [htxt] at hrb
+  simp only at hrb
+  cases htv : typedOfStr T ty (strip txt) with
+  | error e => rw [htv] at hrb; cases hrb
+  | ok v' =>
+    rw [htv] at hrb
+    simp only [beq_iff_eq] at hrb
+    rw [hrb]
+
+/-- the guard is satisfiable: `--version 102` (default 203, nothing in fi.cfg) -/
+example : WillWrite Generated.ofxgetTables [("clientuid".toList, "G".toList)] [] "version".toList (.int 102) where
+  notNull := rfl
+  notGlobalUid := fun h => absurd h (by decide)
+  notDefault := by
+    intro dflt h
+    have h203 : Generated.ofxgetTables.defaults.lookup "version".toList = some (.int 203) := by decide +kernel
+    rw [h203] at h
+    cases h
+    rfl
+
+/-- the value-level guard holds for every integer, every boolean (generated tables) and every string without edge
+    blanks: `C18_persist_partial_int`, `_bool`, `_str` above -/
+example : readsBack Generated.ofxgetTables .int (.int 102) = true := C18_persist_partial_int _ 102
 
 /-- **C18_clientuid_stable** (one step).  Once the DEFAULT section holds a CLIENTUID, the reload at the start of
     `mk_server_cfg` keeps it and draws no new id (`uuid` is not used). -/
@@ -265,5 +344,42 @@ theorem C18_clientuid_kept (mem : Ini) (disk : FileC) (u uuid : Str)
   unfold reloadCfg
   generalize "clientuid".toList = key at h ⊢
   simp [h]
+
+/-- the file after a sequence of ofxget processes (each: `merge_config`, then `write_config` if `args["write"]`) -/
+def diskAfterAll (T : Tables) (lookup : Str → Option OhRec) (fidb disk : FileC) (runs : List (Map × Str)) : FileC :=
+  runs.foldl (diskAfter T lookup fidb) disk
+
+/-- **C18_clientuid_stable.**  Once `ofxget.cfg` holds a global CLIENTUID `u` (DEFAULT section), it holds the same
+    `u` after any sequence of runs — any command lines, with or without `--write`, dry or not, failing or not, any
+    fresh ids offered by `OFXClient.uuid` — as long as no run saves under configparser's reserved nickname
+    `DEFAULT`. -/
+theorem C18_clientuid_stable (T : Tables) (lookup : Str → Option OhRec) (fidb : FileC) (runs : List (Map × Str))
+    (disk : FileC) (u : Str) (hu : globalUid disk = some u) (hstrip : strip u = u)
+    (hnick : ∀ run ∈ runs, ∀ d args, mergeConfig T lookup run.1 (loadUser fidb d) = .ok args →
+      ∀ s, serverNick args = .ok s → s ≠ defaultSect) :
+    globalUid (diskAfterAll T lookup fidb disk runs) = some u := by
+  unfold diskAfterAll
+  induction runs generalizing disk with
+  | nil => exact hu
+  | cons run runs ih =>
+    simp only [List.foldl_cons]
+    apply ih
+    · exact diskAfter_keeps_uid T lookup fidb disk run u hu hstrip (fun args hm s hsn => hnick run (by simp) disk args hm s hsn)
+    · intro r hr d args hm s hsn
+      exact hnick r (by simp [hr]) d args hm s hsn
+
+/-- and the first save creates one: after any successful `mk_server_cfg` (nickname not `DEFAULT`) the file has a
+    global CLIENTUID -/
+theorem C18_clientuid_created (T : Tables) (args : Chain) (fidb disk : FileC) (uuid : Str) (cfg' : Ini) (s : Str)
+    (hs : s ≠ defaultSect) (hnick : serverNick args = .ok s)
+    (h : mkServerCfg T args (loadUser fidb disk) (loadLib fidb) disk uuid = .ok cfg') :
+    (globalUid cfg'.toFile).isSome = true := by
+  obtain ⟨hdef, hcanon, _⟩ := mkServerCfg_defaults T args _ _ (canon_loadUser fidb disk) disk uuid cfg' s hs hnick h
+  unfold globalUid
+  rw [fileLookup_toFile cfg' hcanon, look_default, hdef]
+  have := reloadCfg_has_uid (loadUser fidb disk) disk uuid
+  cases hl : (reloadCfg (loadUser fidb disk) disk uuid).defaults.lookup "clientuid".toList with
+  | none => rw [hl] at this; cases this
+  | some x => rfl
 
 end Ofx.Ofxget
